@@ -161,6 +161,18 @@ CHECKS = {
         note="D8 (inline callables relocated with memcpy) is a listed known finding decided by the selfref case; instance ledgers are "
              "keyed by logical id because pika relocates inline callables bytewise by design.",
         ref="DESIGN.md section 2, C18"),
+    "C15": dict(
+        technique="runtime monitoring: configuration sweep of the real runtime start-up (pika::init) under synthetic hwloc topologies "
+                  "and real taskset masks; in-runtime probe of per-worker PU masks, pool membership and sched_getaffinity judged by the "
+                  "property statement",
+        text="Exploration: thousands of starts of the real runtime over topology (<=4 sockets x <=16 cores x <=4 PUs) x process mask "
+             "(full, contiguous, holes, one PU per core, one socket, partial cores) x thread count (numbers, cores, all, one too many) x "
+             "bind mode x extra resource-partitioner pools; every worker must own exactly one PU of the mask, no PU twice, worker "
+             "count and pool membership as requested; on the real machine the OS affinity of each worker is read back under taskset.",
+        note="Under HWLOC_SYNTHETIC the OS bind call is refused by hwloc, so the computed mapping is judged there and the OS-level "
+             "affinity only on this machine's one-socket 16-PU topology. bind=none oversubscription and satisfiable requests pika "
+             "rejects are recorded, not judged.",
+        ref="DESIGN.md section 2, C15"),
 }
 
 NOT_YET = "not claimed yet: harness under construction in this session (see DESIGN.md section 2)"
